@@ -120,7 +120,7 @@ def run_plan(plan, tag="x", keep_output=False, watchdog=None):
     if res is not None and res.get("harness_error"):
         raise HarnessError(res["harness_error"])
     panics = [l for l in err_t.splitlines() if l.startswith("@@PANIC")]
-    return {"exit": rc, "hung": hung, "result": res, "stderr": err_t[-4000:], "stdout": out_t[-4000:], "wall": wall, "panic_lines": panics}
+    return {"exit": rc, "hung": hung, "result": res, "stderr": err_t if len(err_t) <= 6000 else err_t[:2000] + "\n...\n" + err_t[-4000:], "stdout": out_t[-4000:], "wall": wall, "panic_lines": panics}
 
 
 # ---------------------------------------------------------------------------------------
